@@ -563,8 +563,13 @@ def run(tier: str) -> int:
                 trace2 = d / ("trace2.jsonl" if to_file else "tracedir2")
                 cfg2 = write_config(d, nodes, rs, trace2, detail=detail, name="cfg2.yaml", nested=nested)
                 code2, tf2, _ = launch(d, cfg2, trace2, cli_ctx, extra)
-                recs2 = [r for f in sorted(tf2) for r in tf2[f]]
+                recs2 = ordered(tf2)
                 st2 = next((r for r in recs2 if r.get("record_type") == "run_space_start"), None)
+                sk2 = skeleton(recs2)
+                if sk2 != want:
+                    rep.add_violation(f"second-launch-skeleton:{mode}",
+                                      "a second launch of the same configuration in the same process (same launch id option) is not bracketed / ordered like the first",
+                                      dict(pub, observed=sk2, documented=want))
                 if (d / "sink.txt").exists():
                     (d / "sink.txt").unlink()
                 if st2:
